@@ -555,3 +555,127 @@ func protoEqualOrFieldwise(o *Ob, eq *ssa.Function, key string, depth int) {
 		o.Table(eq, key+"|"+f.Name(), []Row{{Name: f.Name() + " differs", Assume: A(L("(p0."+f.Name()+" == p1."+f.Name()+")", false)), Ret: F}})
 	}
 }
+
+// silenceConversionRule: the silence the API shows is the stored one and the silence it stores is the posted one,
+// field by field.  Times are converted, never adjusted (an edit that sends back what GET returned must compare equal
+// to the stored silence to the second, or it is taken for an attempt to move the start); id, comment, creator and the
+// matchers' name, pattern and operator flags map one to one in both directions.
+func silenceConversionRule(o *Ob) {
+	e := o.E
+	resolve := func(fn *ssa.Function, v ssa.Value) string {
+		if a, ok := v.(*ssa.Alloc); ok {
+			if sv := singleStore(a); sv != nil {
+				return e.X(fn, sv)
+			}
+		}
+		return e.X(fn, v)
+	}
+	out := o.Fn("am/api/v2.GettableSilenceFromProto")
+	o.Site(fnFirst(out), "stored silence → reported silence")
+	for _, c := range []struct{ typ, f, want string }{
+		{"am/api/v2/models.Silence", "StartsAt", `(conv:\S+\()?p0\.StartsAt\.AsTime\)?`},
+		{"am/api/v2/models.Silence", "EndsAt", `(conv:\S+\()?p0\.EndsAt\.AsTime\)?`},
+		{"am/api/v2/models.GettableSilence", "UpdatedAt", `(conv:\S+\()?p0\.UpdatedAt\.AsTime\)?`},
+		{"am/api/v2/models.Silence", "Comment", `&?p0\.Comment`},
+		{"am/api/v2/models.Silence", "CreatedBy", `&?p0\.CreatedBy`},
+		{"am/api/v2/models.GettableSilence", "ID", `&?p0\.Id`},
+	} {
+		sts := e.StoresToField(out, c.typ, c.f)
+		if !o.Check(len(sts) >= 1, "out-field|"+c.f, "the reported silence's "+c.f+" must be set from the stored silence", fnFirst(out)) {
+			continue
+		}
+		for _, st := range sts {
+			v := resolve(out, st.Val)
+			o.Check(regexpMatch(c.want, v), "out-value|"+c.f, "the reported silence's "+c.f+" must be the stored silence's, unchanged; is "+clip(v), st)
+		}
+	}
+	for f, src := range map[string]string{"Name": "Name", "Value": "Pattern"} {
+		for _, st := range e.StoresToField(out, "am/api/v2/models.Matcher", f) {
+			v := resolve(out, st.Val)
+			o.Check(regexpMatch(`&?p0\.MatcherSets\[0\]\.Matchers\[i\]\.`+src, v), "out-matcher|"+f, "a reported matcher's "+f+" must be the stored matcher's "+src+", is "+clip(v), st)
+		}
+	}
+	// operator flags out: type → (isEqual, isRegex)
+	mt := "p0.MatcherSets[0].Matchers[i].Type"
+	pbType := func(name string) string {
+		for path, pkg := range e.SSAPkgs {
+			if strings.HasSuffix(path, "/silence/silencepb") {
+				if c, ok := pkg.Members[name].(*ssa.NamedConst); ok {
+					return itoa(int(c.Value.Int64()))
+				}
+			}
+		}
+		o.Fail("pb-type|"+name, "matcher type "+name+" not found in silencepb", nil)
+		return "?"
+	}
+	tEq, tNe, tRe, tNre := pbType("Matcher_EQUAL"), pbType("Matcher_NOT_EQUAL"), pbType("Matcher_REGEXP"), pbType("Matcher_NOT_REGEXP")
+	for _, m := range []struct {
+		ty, op  string
+		eq, rex bool
+	}{{tEq, "=", true, false}, {tNe, "!=", false, false}, {tRe, "=~", true, true}, {tNre, "!~", false, true}} {
+		var cut []LitM
+		for _, t := range []string{tEq, tNe, tRe, tNre} {
+			cut = append(cut, L("("+mt+" == "+t+")", t == m.ty))
+		}
+		if !e.litKnown(out, cut[0]) {
+			o.Fail("out-flags|"+m.op, "GettableSilenceFromProto no longer distinguishes matcher type "+m.ty, fnFirst(out))
+			continue
+		}
+		r := (&Walk{Fn: out, Cut: e.CutContradicting(cut...)}).FromEntry()
+		for f, want := range map[string]bool{"IsEqual": m.eq, "IsRegex": m.rex} {
+			seen := false
+			for _, st := range e.StoresToField(out, "am/api/v2/models.Matcher", f) {
+				if !r.Has(st) {
+					continue
+				}
+				seen = true
+				v := resolve(out, st.Val)
+				o.Check(v == map[bool]string{true: "true", false: "false"}[want], "out-flags|"+m.op+"|"+f, "operator "+m.op+" must be reported with "+f+"="+map[bool]string{true: "true", false: "false"}[want]+", is "+v, st)
+			}
+			o.Check(seen, "out-flags-set|"+m.op+"|"+f, "operator "+m.op+" is reported without "+f, fnFirst(out))
+		}
+	}
+	in := o.Fn("am/api/v2.PostableSilenceToProto")
+	o.Site(fnFirst(in), "posted silence → stored silence")
+	for f, want := range map[string]string{
+		"Id":        `p0\.ID`,
+		"StartsAt":  `timestamppb\.New\((conv:time\.Time\()?\*p0\.Silence\.StartsAt\)?\)`,
+		"EndsAt":    `timestamppb\.New\((conv:time\.Time\()?\*p0\.Silence\.EndsAt\)?\)`,
+		"Comment":   `\*p0\.Silence\.Comment`,
+		"CreatedBy": `\*p0\.Silence\.CreatedBy`,
+	} {
+		sts := e.StoresToField(in, "am/silence/silencepb.Silence", f)
+		if !o.Check(len(sts) >= 1, "in-field|"+f, "the stored silence's "+f+" must be set from the posted silence", fnFirst(in)) {
+			continue
+		}
+		for _, st := range sts {
+			v := resolve(in, st.Val)
+			o.Check(regexpMatch(want, v), "in-value|"+f, "the stored silence's "+f+" must be the posted one, unchanged; is "+clip(v), st)
+		}
+	}
+	for f, src := range map[string]string{"Name": "Name", "Pattern": "Value"} {
+		for _, st := range e.StoresToField(in, "am/silence/silencepb.Matcher", f) {
+			v := resolve(in, st.Val)
+			o.Check(regexpMatch(`\*p0\.Silence\.Matchers\[i\]\.`+src, v), "in-matcher|"+f, "a stored matcher's "+f+" must be the posted matcher's "+src+", is "+clip(v), st)
+		}
+	}
+	// every posted matcher is kept
+	for _, st := range e.StoresToField(in, "am/silence/silencepb.MatcherSet", "Matchers") {
+		_, parts := e.AppendParts(st.Val)
+		for _, p := range parts {
+			if p.Call == nil {
+				continue
+			}
+			if l := e.LoopOf(p.Call); o.Check(l != nil, "in-matchers-loop", "posted matchers must be converted in a loop", p.Call) {
+				o.Check(e.CoversAll(l, "p0.Silence.Matchers") && len(e.EarlyExits(l)) == 0 && !loopBackWithout(o, l, IsInstr(p.Call), nil), "in-matchers-all", "a posted matcher can be dropped", p.Call)
+			}
+		}
+	}
+}
+
+func init() {
+	reg("C12", "C12.10", "T8,T11", "the API's silence conversions are field-faithful: times are converted without adjustment, id / comment / creator / matcher name, pattern and operator flags map one to one, every posted matcher is kept", func(o *Ob) {
+		silenceConversionRule(o)
+		o.MinSites(2)
+	})
+}
